@@ -267,6 +267,8 @@ class Ex:
         self.first_index_facts = []
         self.while_obligations = []
         self.inv_obligations = []        # (id, hyps, goal) of the invariant rule for `for` loops
+        self.skipped = []                # conditional `continue`s met under continue_policy='assume-not'
+        self.continue_policy = None
         self._solver = None
         self._solver_n = -1
         self.depth = 0
@@ -854,6 +856,13 @@ class Ex:
     def st_Continue(self, s):
         if getattr(self, 'skipconds', None) is None:
             raise OutsideSubset('continue outside an interpreted loop')
+        if self.guards and getattr(self, 'continue_policy', None) == 'assume-not':
+            # contract-selected treatment of a conditional `continue`: the condition is RECORDED (the contract turns "this iteration is
+            # never skipped" into an obligation) and the rest of the iteration is executed for the case that it does not hold
+            cond = z3.And(*self.guards) if len(self.guards) > 1 else self.guards[0]
+            self.skipped.append(dict(cond=cond, pc=list(self.pc), line=s.lineno))
+            self.pc.append(z3.Not(cond))
+            return
         self.skipconds.append(z3.And(*self.guards) if self.guards else True)
 
     def st_Pass(self, s):
